@@ -200,11 +200,20 @@ def check_property_file(pid):
         res['broken'] = m.group(0) if m else 'coqc failed'
         return res
     axioms = set()
-    for block in re.findall(r'Axioms:\n((?:.+\n?)+?)(?=\n\S|\Z)', out):
-        for line in block.splitlines():
-            m = re.match(r'^([A-Za-z_][\w.\']*)\s*:', line)
+    in_block = False
+    for line in out.splitlines():
+        if line.startswith('Axioms:'):
+            in_block = True
+            continue
+        if line.startswith('Closed under the global context'):
+            in_block = False
+            continue
+        if in_block:
+            m = re.match(r'^([A-Za-z_][\w.\']*)\s*(:|$)', line)
             if m:
                 axioms.add(m.group(1))
+            elif line and not line[0].isspace():
+                in_block = False
     res['axioms'] = sorted(axioms)
     bad = [a for a in axioms if a not in ALLOWED_AXIOMS]
     res['bad_axioms'] = bad
